@@ -84,6 +84,14 @@ class Ctx:
 
     # -- finishing ---------------------------------------------------------------------------
     def finish(self, prog_consulted: List[str]) -> int:
+        dump = os.environ.get('VERIF_DUMP_INSTANCES')
+        if dump:
+            # debugging aid (tools/diff_instances.sh): which instances exist on this tree, keyed without line numbers
+            with open(dump, 'w') as f:
+                for i in self.instances:
+                    f.write(f'{i.rule} | {i.func} | {"ok" if i.ok else "BAD"}\n')
+                for u in self.unrecognised:
+                    f.write('UNREC ' + u[:160] + '\n')
         # floors: a rule that examined fewer instances than confirmed by hand is analysis-broken
         counts: Dict[str, int] = {r: 0 for r in self.rule_text}
         for i in self.instances:
